@@ -717,3 +717,91 @@ def _blocks(node):
                 visit(h.body)
     visit(node.body)
     return out
+
+
+def rule_empty_message_is_not_the_end(ctx, rule='C12.m'):
+    """On a message transport every message is one frame and a zero-length message is a legal - if useless - message,
+    not the end of the connection (that is what the websocket CLOSE / the exception of the receive call says).  In
+    every feeder that hands messages to the parser with prefix size 0, no `break` / `return` is control-dependent on
+    the emptiness of the received message (`not data`, `len(data) == 0`, `data == b''`); skipping it with `continue`
+    is fine.  The byte-stream transports, where an empty read is EOF, are not concerned."""
+    rep = ctx.report
+    repo = ctx.repo
+    base = repo.cls('rsocket.transports.abstract_messaging:AbstractMessagingTransport')
+    impls = repo.concrete_subclasses(base, include_self=False)
+    seen = set()
+    n = 0
+    for k in sorted(impls, key=lambda c: c.qualname):
+        for fn in _feeders(repo, k):
+            if fn.qualname in seen:
+                continue
+            seen.add(fn.qualname)
+            for loop in [x for x in walk_local(fn.node) if isinstance(x, (ast.AsyncFor, ast.For)) and
+                         'receive_data' in ast.unparse(x.iter)]:
+                call = [c for c in ast.walk(loop.iter) if isinstance(c, ast.Call) and
+                        isinstance(c.func, ast.Attribute) and c.func.attr == 'receive_data'][0]
+                size = call.args[1] if len(call.args) > 1 else next(
+                    (kw.value for kw in call.keywords if kw.arg == 'header_length'), None)
+                if not (isinstance(size, ast.Constant) and size.value == 0) or not call.args:
+                    continue
+                n += 1
+                # names the message goes by: the argument and what it was derived from (msg.data <- msg)
+                names = {x.id for x in ast.walk(call.args[0]) if isinstance(x, ast.Name)}
+                for _ in range(2):
+                    for a in walk_local(fn.node):
+                        if isinstance(a, ast.Assign) and any(isinstance(t, ast.Name) and t.id in names
+                                                             for t in a.targets):
+                            names |= {x.id for x in ast.walk(a.value) if isinstance(x, ast.Name)} - {'self'}
+                names -= {'self', 'websocket', 'bytes', 'len'}
+
+                def emptiness(test):
+                    """Does the test ask whether a message is empty?"""
+                    for t in ast.walk(test):
+                        if isinstance(t, ast.UnaryOp) and isinstance(t.op, ast.Not):
+                            o = t.operand
+                            if isinstance(o, ast.Name) and o.id in names or isinstance(o, ast.Attribute) and \
+                                    isinstance(o.value, ast.Name) and o.value.id in names and o.attr in ('data',):
+                                return ast.unparse(t)
+                        if isinstance(t, ast.Compare) and len(t.ops) == 1:
+                            sides = [t.left, t.comparators[0]]
+                            texts = [ast.unparse(x) for x in sides]
+                            about = any(any(isinstance(y, ast.Name) and y.id in names for y in ast.walk(x))
+                                        for x in sides)
+                            if about and (any(x in ("b''", "''", '0', 'bytes()') for x in texts)) and \
+                                    isinstance(t.ops[0], (ast.Eq, ast.LtE, ast.Lt, ast.Is)):
+                                return ast.unparse(t)
+                    return None
+
+                bad = None
+
+                def visit(stmts, guards):
+                    nonlocal bad
+                    for s in stmts:
+                        if isinstance(s, (ast.Break, ast.Return)) and guards:
+                            bad = bad or (s, guards[-1])
+                        elif isinstance(s, ast.If):
+                            g = emptiness(s.test)
+                            visit(s.body, guards + [g] if g else guards)
+                            visit(s.orelse, guards)
+                        elif isinstance(s, (ast.FunctionDef, ast.AsyncFunctionDef, ast.ClassDef)):
+                            continue
+                        else:
+                            for field in ('body', 'orelse', 'finalbody'):
+                                sub = getattr(s, field, None)
+                                if isinstance(sub, list) and sub and isinstance(sub[0], ast.stmt):
+                                    visit(sub, guards)
+                            for h in getattr(s, 'handlers', []) or []:
+                                visit(h.body, guards)
+                # the loop that receives the messages: the innermost loop around the hand-off.  A feeder that is called
+                # once per message (a consumer call-back) has none, and leaving it is leaving that message only.
+                outer = [x for x in walk_local(fn.node) if isinstance(x, (ast.While, ast.AsyncFor, ast.For)) and
+                         x is not loop and any(y is loop for y in ast.walk(x))]
+                if outer:
+                    message_loop = min(outer, key=lambda x: len(list(ast.walk(x))))
+                    visit(message_loop.body, [])
+                rep.add(rule, '%s / an empty message does not end the connection' % fn.short, fn, bad is None,
+                        'no break / return depends on the emptiness of a message' if bad is None else
+                        '`%s` under `if %s`: a zero-length message from the peer ends the feeder, the receiver is told '
+                        'the connection is over and every stream is torn down' % (
+                            ast.unparse(bad[0]), bad[1]))
+    rep.require(rule, 'feeders of message transports', n, 7)
